@@ -62,15 +62,7 @@ def ftoi (r : Float) : Want :=
   | some z => ofOutcome (checked z)
   | none => .free
 
-/-- `Spec.ExactArith.pow` made executable for huge exponents (Lean cannot evaluate `2 ^ (2^62)`):
-    a base of magnitude ≥ 2 with an exponent ≥ 64 is out of range, bases 0, 1, -1 are evaluated by parity. -/
-def powFast (x y : Int) : Outcome :=
-  if y < 64 then pow x y
-  else if x = 0 then .value 0
-  else if x = 1 then .value 1
-  else if x = -1 then .value (if y % 2 = 0 then 1 else -1)
-  else .evalError "int_overflow"
-
+/-- `applyBin` with the executable form of `^` (Spec.ExactArith.powFast = pow, theorem C07_powFast_eq) -/
 def applyBinFast (f : String) (x y : Int) : Option Outcome :=
   if f == "^" then some (powFast x y) else applyBin f x y
 
